@@ -856,7 +856,15 @@ class Engine:
             p.status = "return"
             return [p]
         if isinstance(s, ast.Raise):
-            p.effects.append(("raise", ast.unparse(s.exc) if s.exc else "reraise", s.lineno, p.store.get(("handlers",), ()), fr["fn"].qual))
+            exc_txt = ast.unparse(s.exc) if s.exc else "reraise"
+            if isinstance(s.exc, ast.Call) and isinstance(s.exc.func, ast.Name):
+                # raise helper(...): a repository function whose body is `return SomeError(...)` stands for that exception
+                hf = self.M.funcs.get(f"{fr['fn'].mod}.{s.exc.func.id}")
+                if hf is not None:
+                    hb = [x for x in hf.node.body if not (isinstance(x, ast.Expr) and isinstance(x.value, ast.Constant))]
+                    if len(hb) == 1 and isinstance(hb[0], ast.Return) and isinstance(hb[0].value, ast.Call):
+                        exc_txt = ast.unparse(hb[0].value)
+            p.effects.append(("raise", exc_txt, s.lineno, p.store.get(("handlers",), ()), fr["fn"].qual))
             p.status = "raise"
             return [p]
         if isinstance(s, ast.Pass):
@@ -888,6 +896,10 @@ class Engine:
             return [p]
         if isinstance(s, ast.Assert):
             t, f = self.cond(s.test, p, fr)
+            if not self.track_exc:
+                # outside the exception analysis an assert is an assumption of the code's author: execution continues where it holds
+                # (whether it can fire is decided, or left undecided, by the exception-escape rules of C14)
+                return t + [q for q in f if q.status != "run"]
             for q in f:
                 if q.status == "run":
                     q.effects.append(("raise", "AssertionError", s.lineno, q.store.get(("handlers",), ()), fr["fn"].qual))
@@ -1011,6 +1023,14 @@ class Engine:
                     nxt.extend(f)
                 rest = nxt
             return out + rest
+        if isinstance(s, ast.With) and all(isinstance(it.context_expr, ast.Call) and isinstance(it.context_expr.func, ast.Name) and it.context_expr.func.id in ("memoryview", "nullcontext")
+                                            for it in s.items):
+            # with memoryview(x) as v: the view itself is bound; leaving the block only releases it
+            for it in s.items:
+                v = self.ev(it.context_expr, p, fr)
+                if it.optional_vars is not None:
+                    self.assign(it.optional_vars, v, p, fr, s.lineno)
+            return self.block(s.body, [p], fr)
         if isinstance(s, (ast.With, ast.AsyncWith)):
             names = []
             for it in s.items:
